@@ -208,6 +208,10 @@ func c13Gen(c *core.Ctx) {
 					cs.Braces, cs.DQ, cs.NoUnset, cs.InArith = br, dq, nu, true
 					cs.IFS, cs.IFSSet, cs.Other = " \t\n", true, "o1 o2"
 					core.Do(c, c13Case{Case: cs, Kind: "in-arithmetic"}, c13Exec)
+					if !br && pr.Name != "v" {
+						cs.ArithGlue = true
+						core.Do(c, c13Case{Case: cs, Kind: "in-arithmetic"}, c13Exec)
+					}
 				}
 			}
 		}
